@@ -12,6 +12,13 @@ NOTE_COMMON = ("Trusted base: go/packages + go/types type-check of /repo's worki
 
 # id -> (technique, level text, level note, design ref)
 CLAIMS = {
+    "C14": (
+        "paired-update (must-follow / must-precede) analysis over every write to the state maps (channel.nicks, Session.Channels, IRCServer.nicks/channels/sessions) on statement-level CFGs, guard clauses for the old-key removal, door checks by dominating facts, provenance of explicit lcNick/lcChan conversions; the same rules applied to every sibling handler",
+        "Partial: decides the inductive step of the state invariants for the code shape — membership is updated on both sides (and empty channels are dropped, created channels get a member, channels are dropped only when empty), "
+        "a nickname change updates index, channels and prefix and removes the old key only when it differs, only valid and unowned nicknames / valid channel names enter the indexes, sessions and channels are created only after the limit comparison, "
+        "and lower-case key conversions only wrap values from the same key space. Value-dependent invariants (two spellings lower-casing to one key) and SVS* onto occupied targets are not decided.",
+        NOTE_COMMON,
+        "DESIGN.md section 3, C14"),
     "C13": (
         "gate dominance: privileged effects located by what they write (field writes, callee summaries), privilege clauses derived from dominating branch conditions (De Morgan, local boolean definitions resolved, clause subsumption), path rules over the JOIN else-if chain (every path from the channel-exists edge to the membership insert passes the ban / invite / captcha / key test), dispatch-key analysis for services commands",
         "Decides, for the code shape, that every privileged state change in client-reachable code is dominated by its privilege test on the granting edge (chanop|oper + membership for channel settings, membership and !+t|chanop for topics, chanop for kicks, "
